@@ -61,7 +61,16 @@ func Run(cfg Config) int {
 		tag = "all"
 	}
 	if cfg.WorkDir == "" {
-		cfg.WorkDir = filepath.Join(cfg.Root, "work", tag)
+		sub := tag
+		if cfg.Only != "" {
+			sub += "-" + strings.Map(func(r rune) rune {
+				if r >= 'a' && r <= 'z' || r >= 'A' && r <= 'Z' || r >= '0' && r <= '9' || r == '.' {
+					return r
+				}
+				return '_'
+			}, cfg.Only)
+		}
+		cfg.WorkDir = filepath.Join(cfg.Root, "work", sub)
 	}
 	os.RemoveAll(cfg.WorkDir)
 	if err := os.MkdirAll(cfg.WorkDir, 0o755); err != nil {
